@@ -35,7 +35,7 @@ def pool(tier):
   """quick: support -3..3, ~130 polynomials; thorough: ~330."""
   powers = list(range(-3, 4))
   out = [[]]
-  c1 = ["1", "-1", "2", "1/2", "-3/2"]
+  c1 = ["1", "-1", "2", "1/2", "-3/2", "-2"]
   c2 = [("1", "-1"), ("2", "1/2"), ("-3/2", "1"), ("-1", "-1"), ("1/2", "2")]
   c3 = [("1", "-1", "2"), ("1/2", "-3/2", "1")]
   pw2 = list(itertools.combinations(range(-2, 3), 2)) + [(-3, 0), (-3, 3), (0, 3), (1, 3)]
@@ -58,6 +58,9 @@ def pool(tier):
           [[0, "1"], [1, "1"], [2, "-1/2"], [3, "1"]], [[0, "2"], [1, "-2"], [2, "1"], [3, "-1"]]]
   # no constant and no linear term (lowest power >= 2): composition schemes that factor the lowest power out
   out += [[[2, "1"], [3, "2"]], [[2, "-1"], [4, "1/2"]], [[3, "1"], [5, "-1"]], [[2, "2"], [3, "-1"], [5, "1"]]]
+  # pairs that differ only where CPython's hash does not (hash(-1) == hash(-2)): in a coefficient, in a power
+  out += [[[0, "-1"], [2, "1"]], [[0, "-2"], [2, "1"]], [[-1, "1"], [0, "1"]], [[-2, "1"], [0, "1"]],
+          [[-1, "-1"], [1, "2"]], [[-2, "-1"], [1, "2"]], [[-1, "-2"], [1, "2"]]]
   return out
 
 
@@ -148,6 +151,12 @@ def run_pair(case):
   # the same operators on operands that were hashed first (hashing may cache inside the object)
   hp_, hq_ = mk(ps), mk(qs)
   hash(hp_), hash(hq_)
+  if (hp_ == hq_) != (rp == rq) or (hp_ != hq_) == (rp == rq) or (hq_ == hp_) != (rp == rq):
+    return bad("eq:value-after-hash", "== / != of two polynomials that were both hashed before must still be equality "
+               "of terms", {"equal": rp == rq}, {"==": hp_ == hq_, "!=": hp_ != hq_, "same hash": hash(hp_) == hash(hq_)}, n)
+  if len({hp_, hq_}) != (1 if rp == rq else 2) or (hq_ in {hp_: 1}) != (rp == rq):
+    return bad("eq:value-after-hash", "a set / dict of two polynomials must hold them as equal exactly when their terms are",
+               {"equal": rp == rq}, {"distinct in set": len({hp_, hq_})}, n)
   for name, got, exp in (("add", hp_ + hq_, rr.padd(rp, rq)), ("sub", hp_ - hq_, rr.psub(rp, rq)),
                          ("mul", hp_ * hq_, rr.pmul(rp, rq))):
     fresh = Poly(dict(exp))
